@@ -1,7 +1,7 @@
 /-
 C17 model, part 2: djs_reject (pydl/pydlutils/math.py:192-451; `djsReject`: WITHOUT the
 `maxrej`/`groupdim`/`groupsize`/`groupbadpix` block; `djsRejectFull` further down: the
-call with `maxrej=None` on data of any shape), and skymask (pydl/pydlspec2d/spec1d.py:1089-1124)
+call with `maxrej=None` on data of any shape; `djsRejectMaxrej`: the call WITH `maxrej`, block included), and skymask (pydl/pydlspec2d/spec1d.py:1089-1124)
 with its own small copy of smooth() (pydl/smooth.py) on integers.
 
 The elementwise numpy expressions over equally shaped arrays are written as a map
@@ -149,6 +149,156 @@ def djsRejectFull (sqrt : α → α) (o : Opts α) (_g : GroupOpts) (_shape : Li
     Except String (List Bool × Bool) :=
   djsReject sqrt o data model outmask inmask s
 
+/-! ## djs_reject called WITH `maxrej` (third extension round; new definitions only)
+
+The block `if maxrej is not None:` of `djs_reject` as the code is.  What the repository code does with it:
+the consistency checks in front use `len()` (TypeError for a scalar `maxrej`/`groupdim`/`groupsize` whenever the
+partner option is given); the loop `for ivec in range(max(dimnum))` takes Python's builtin `max` of the array
+`dimnum = djs_laxisnum(data.shape, groupdim[iloop]-1)`: for 1-D data `djs_laxisnum` returns zeros (`if ndimen == 1: pass`),
+so the range is empty; for 2-D / 3-D data the builtin `max` iterates over the first axis and either compares whole
+sub-arrays (ValueError "truth value of an array is ambiguous") or returns a sub-array that `range` refuses (TypeError);
+without `groupdim`, `dimnum = [0]` and the range is empty.  The loop body (lines 380-427) is a PARAMETER here. -/
+
+/-- a Python argument that is a scalar or a sequence (list / ndarray of integers) -/
+inductive PyArg where
+  | scalar (v : Int)
+  | seq (l : List Int)
+  deriving Repr
+
+/-- `len(x)`: TypeError for a scalar -/
+def pyLen : PyArg → Except String Nat
+  | .scalar _ => throw "TypeError"
+  | .seq l => pure l.length
+
+/-- the options of a call with `maxrej` given -/
+structure MaxrejOpts where
+  maxrej : PyArg
+  groupdim : Option PyArg
+  groupsize : Option PyArg
+  groupbadpix : Bool
+
+/-- lines 286-296: `len(maxrej) != len(groupdim)` / `len(maxrej) != len(groupsize)` (ValueError; TypeError from `len`
+of a scalar), defaults `groupdim = []`, `groupsize = len(data)` (TypeError for 0-d data).  Returns the `groupdim`
+sequence and `groupsize`. -/
+def maxrejChecks (g : MaxrejOpts) (shape : List Nat) : Except String (List Int × PyArg) := do
+  let gd ← match g.groupdim with
+    | some d => do
+      let lm ← pyLen g.maxrej
+      let ld ← pyLen d
+      if lm ≠ ld then throw "ValueError"
+      match d with
+      | .seq l => pure l
+      | .scalar _ => throw "TypeError"
+    | none => pure []
+  let gs ← match g.groupsize with
+    | some sz => do
+      let lm ← pyLen g.maxrej
+      let ls ← pyLen sz
+      if lm ≠ ls then throw "ValueError"
+      pure sz
+    | none => match shape with
+      | [] => throw "TypeError"
+      | n :: _ => pure (.scalar n)
+  pure (gd, gs)
+
+/-- `djs_laxisnum(dims, iaxis)` (pydl/pydlutils/misc.py), result C-order flattened: 1-D → zeros whatever `iaxis`
+(`if ndimen == 1: pass`); 2-D / 3-D → the index along axis `iaxis`, ValueError for another `iaxis`; 0-d or more than
+three dimensions → ValueError -/
+def laxisnum (dims : List Nat) (iaxis : Int) : Except String (List Nat) :=
+  let size := dims.foldl (· * ·) 1
+  match dims.length with
+  | 1 => pure (List.replicate size 0)
+  | 2 | 3 =>
+    if 0 ≤ iaxis ∧ iaxis < dims.length then
+      let a := iaxis.toNat
+      let stride := (dims.drop (a + 1)).foldl (· * ·) 1
+      pure ((List.range size).map fun p => (p / stride) % dims.getD a 1)
+    else throw "ValueError"
+  | _ => throw "ValueError"
+
+/-- `range(max(dimnum))` with Python's builtin `max` on an ndarray of shape `dshape` (flattened values `flat`):
+the number of iterations, or the exception.  1-D: the maximum (ValueError when empty).  N-D (`r` sub-arrays of
+`m` elements): `r = 0` → ValueError (empty sequence); `r = 1` → the sub-array itself → `range` TypeError;
+`r ≥ 2` → `bool(sub > sub)`: ValueError unless `m = 1`, then a sub-array again → TypeError. -/
+def rangeMax (dshape : List Nat) (flat : List Nat) : Except String Nat :=
+  match dshape with
+  | [] => throw "TypeError"
+  | [n] => if n = 0 then throw "ValueError" else pure (flat.foldl max 0)
+  | r :: rest =>
+    let m := rest.foldl (· * ·) 1
+    if r = 0 then throw "ValueError"
+    else if r = 1 then throw "TypeError"
+    else if m = 1 then throw "TypeError" else throw "ValueError"
+
+/-- lines 363-369: `groupdim[iloop] > ndim` → ValueError; `dimnum` (shape, flattened values) = `djs_laxisnum(data.shape,
+groupdim[iloop]-1)`, or `np.asarray([0])` without `groupdim` -/
+def maxrejDimnum (gd : List Int) (shape : List Nat) (iloop : Nat) : Except String (List Nat × List Nat) :=
+  if gd.length > 0 then
+    if gd.getD iloop 0 > (shape.length : Int) then throw "ValueError"
+    else match laxisnum shape (gd.getD iloop 0 - 1) with
+      | .ok dn => pure (shape, dn)
+      | .error e => throw e
+  else pure ([1], [0])
+
+/-- one turn of `for iloop in ...` (lines 359-427) with the loop body as a parameter `body iloop dimnum ivec badness`:
+`for ivec in range(max(dimnum)): body` -/
+def maxrejStep (body : Nat → List Nat → Nat → List α → Except String (List α)) (gd : List Int)
+    (shape : List Nat) (b : List α) (iloop : Nat) : Except String (List α) :=
+  match maxrejDimnum gd shape iloop with
+  | .error e => .error e
+  | .ok dd =>
+    match rangeMax dd.1 dd.2 with
+    | .error e => .error e
+    | .ok k => (List.range k).foldlM (fun b ivec => body iloop dd.2 ivec b) b
+
+/-- lines 355-427: `for iloop in range(max(len(groupdim), 1))` -/
+def maxrejBlock (body : Nat → List Nat → Nat → List α → Except String (List α)) (gd : List Int)
+    (shape : List Nat) (bad : List α) : Except String (List α) :=
+  (List.range (max gd.length 1)).foldlM (maxrejStep body gd shape) bad
+
+/-- lines 387-388 (groupbadpix): `goodtemp = badness == 0`;
+`groups_lower = (-1*np.diff(np.insert(goodtemp, 0, 1)) == 1).nonzero()[0]`.  `np.insert` flattens and keeps dtype bool,
+`np.diff` of a bool array is `!=` of neighbours (bool), `-1*bool` is the integer `-1` or `0`. -/
+def groupsLower (bad : List α) : List Nat :=
+  let ins := true :: bad.map isZero
+  let diff := List.zipWith (fun a b => a != b) ins.tail ins
+  (List.range diff.length).filter fun i => (-1 : Int) * (if diff.getD i false then 1 else 0) == 1
+
+/-- the loop body as far as it can be read without ever being run (no input reaches it, see the theorems):
+`groupbadpix` → `ngroups = len(groups_lower)` groups, none → nothing happens; otherwise
+`ngroups = nin/groupsize + 1` is a float (or `int / list` fails) and `range(ngroups)` raises TypeError. -/
+def maxrejBody (g : MaxrejOpts) (_iloop : Nat) (_dimnum : List Nat) (_ivec : Nat) (bad : List α) :
+    Except String (List α) :=
+  if g.groupbadpix then
+    if (groupsLower bad).length = 0 then pure bad else throw "unmodelled: groups of bad pixels"
+  else throw "TypeError"
+
+/-- `djs_reject(data, model, ..., maxrej=, groupdim=, groupsize=, groupbadpix=)` on data of any shape (arrays C-order
+flattened): the checks of `djsReject` in the code's order with the `maxrej` checks between the `inmask` check and
+the first use of `sigma`/`invvar`, the working array, the `maxrej` block, the end of the routine. -/
+def djsRejectMaxrej (sqrt : α → α) (body : Nat → List Nat → Nat → List α → Except String (List α))
+    (o : Opts α) (g : MaxrejOpts) (shape : List Nat) (data : List α)
+    (model : Option (List α)) (outmask inmask : Option (List Bool)) (s : List α) :
+    Except String (List Bool × Bool) := do
+  let n := data.length
+  let prev ← match outmask with
+    | none => pure (List.replicate n true)
+    | some om => if om.length ≠ n then throw "ValueError" else pure om
+  match model with
+  | none => pure ((match inmask with | some im => im | none => prev), false)
+  | some mdl =>
+    if mdl.length ≠ n then throw "ValueError"
+    let inm ← match inmask with
+      | none => pure (List.replicate n true)
+      | some im => if im.length ≠ n then throw "ValueError" else pure im
+    let gg ← maxrejChecks g shape
+    if s.length ≠ n then throw "ValueError"
+    let px := (List.range n).map fun i =>
+      (⟨data.getD i 0, mdl.getD i 0, s.getD i 0, inm.getD i true, prev.getD i true⟩ : Pix α)
+    let o' := { o with hasIn := inmask.isSome }
+    let bad ← maxrejBlock body gg.1 shape (px.map (badness sqrt o'))
+    pure (finishMask o' px bad)
+
 /-! ## smooth() on integers and skymask -/
 
 /-- `ndarray.sum()` of an integer slice -/
@@ -200,5 +350,18 @@ def skyBad (ormask : Option (List Int)) (npix ngrow : Nat) : List Int :=
 /-- one row of `skymask(invvar, andmask, ormask, ngrow)`: `invvar * (1 - badmask)` -/
 def skymaskRow (invvar : List α) (ormask : Option (List Int)) (ngrow : Nat) : List α :=
   List.zipWith (fun v b => v * Scalar.ofNat (1 - b).toNat) invvar (skyBad ormask invvar.length ngrow)
+
+/-- all rows of `skymask` (third extension round): the loop `for k in range(nrows)` treats every row on its own;
+`if ngrow > 0:` - a zero or negative `ngrow` means no dilation (`Int.toNat`) -/
+def skymaskRows (invvar : List (List α)) (ormask : Option (List (List Int))) (ngrow : Int) : List (List α) :=
+  match ormask with
+  | none => invvar.map (fun r => skymaskRow r none ngrow.toNat)
+  | some oms => List.zipWith (fun r o => skymaskRow r (some o) ngrow.toNat) invvar oms
+
+/-- `skymask(invvar, andmask, ormask, ngrow)` on an array of shape `shape` given by its rows:
+`nrows, npix = invvar.shape` raises ValueError unless the array is 2-D; `andmask` is ignored by the code -/
+def skymaskImage (shape : List Nat) (invvar : List (List α)) (ormask : Option (List (List Int))) (ngrow : Int) :
+    Except String (List (List α)) :=
+  if shape.length ≠ 2 then throw "ValueError" else pure (skymaskRows invvar ormask ngrow)
 
 end PydlVerif.Reject
